@@ -50,6 +50,9 @@ CHECKS = {
  "C12": dict(technique="CrossHair symbolic execution of transform/structure.py helpers and the Transform methods they guard (positions, depth, direction, type and slice index symbolic); spec-derived validator and leaf-sequence oracle",
              text="On every catalogue document, for every position / block range / depth / wrapper type / node type / slice, no helper raises, results are in range, and whenever can_split, can_join, join_point, lift_target, find_wrapping, insert_point or drop_point approves, performing the edit records a step and yields a valid document; split, join, lift and wrap keep the text/leaf sequence exactly; a node inserted at insert_point sits exactly there.",
              ref="4/C12"),
+ "C13": dict(technique="CrossHair symbolic execution of Transform.add_mark/remove_mark/add_node_mark/remove_node_mark/set_node_attribute/set_block_type/set_node_markup (range ends, position, mark/type index, attribute value symbolic); token-wise comparison with the reference mark algebra over the spec-derived exclusion relation",
+             text="On documents of the list/docmarks schemas and six mark-exclusion schemas, for every range, mark, mark type and textblock type each path leaves structure tokens and everything outside the range identical, gives every inline token inside the range whose parent allows the type exactly ref_add(old, mark) (resp. the set minus the removed mark/type/all), changes only the addressed token for node-level edits, and keeps the text/leaf sequence under set_block_type/set_node_markup up to children the new type cannot hold and newline replacement.",
+             ref="4/C13"),
 }
 CHECKS_END = None
 
